@@ -321,7 +321,8 @@ Theorem pgaapp_rows_dist_updates : forall lr pl qm A ops, (1 <= A)%nat -> Forall
 Proof. exact pgaapp_rows_dist_lemma. Qed.
 Print Assumptions pgaapp_rows_dist_updates.
 
-(* the same over histories that interleave stepUpdateP with setLearningRate / setPredictionLength
+(* the same over histories that interleave stepUpdateP with writes to the referenced Q-function
+   (PSetQ: the policy only holds a reference to it) and with setLearningRate / setPredictionLength
    (any values: negative ones throw and change nothing); the parameters stay >= 0 *)
 Theorem pgaapp_rows_dist : forall lr pl qm A ops, (1 <= A)%nat -> 0 <= lr -> 0 <= pl ->
   Forall (fun r => length r = A) qm ->
@@ -337,6 +338,23 @@ Example ex_pgaapp_nonvacuous :
   veqb (pga_grad_row (1#10) (1#2) [10; 0; 0] [1; 0; 0]) [1; -1; -1] = true /\
   veqb (row (pga_run (1#10) (1#2) [[10; 0; 0]] 3 [0%nat; 0%nat]) 0) [1; 0; 0] = true.
 Proof. vm_compute. repeat split. Qed.
+
+(* ------------------------------------------------------------------ MDP::Policy(const PolicyMatrix &) *)
+(* an accepted matrix is stored unchanged and EVERY row is a probability vector (up to the library's
+   tolerance); a matrix with a single bad row is rejected, whatever the other rows sum to *)
+Theorem policy_ctor_rows_dist : forall m p, policy_ctor m = Some p ->
+  p = m /\ Forall (fun r => is_dist_tol epsS r) p.
+Proof. exact policy_ctor_lemma. Qed.
+Print Assumptions policy_ctor_rows_dist.
+
+Theorem policy_ctor_rejects : forall m r, In r m ->
+  (~ nonneg r \/ epsS < qsum r - 1 \/ qsum r - 1 < - epsS) -> policy_ctor m = None.
+Proof. exact policy_ctor_rejects_lemma. Qed.
+Print Assumptions policy_ctor_rejects.
+
+Example ex_policy_ctor_compensating :
+  policy_ctor [[4#5; 0]; [1#5; 1]] = None /\ policy_ctor [[1#2; 1#2]; [0; 1]] = Some [[1#2; 1#2]; [0; 1]].
+Proof. vm_compute. split; reflexivity. Qed.
 
 (* ------------------------------------------------------------------ hypotheses are satisfiable *)
 Example ex_softmax_nonvacuous : exp_like ex_step /\ eqSmall (1#2) 0 = false /\
